@@ -55,6 +55,35 @@ pub fn random_dup_history(rng: &mut ChaCha8Rng, k: i32, len: usize) -> Vec<Op> {
     ops
 }
 
+/// A hub with k - 1 neighbours (k = 10..12): the nodes exist before the hub's edges, the edges arrive in a
+/// shuffled order and direction, and then hub edges are added again with other weights.  The hub's adjacency
+/// list is longer than any small-list threshold and is not sorted by node index when the duplicate handling
+/// has to find an entry in it.
+pub fn hub_dup_history(rng: &mut ChaCha8Rng, k: i32) -> Vec<Op> {
+    use rand::seq::SliceRandom;
+    let mut names: Vec<i32> = (1..=k).collect();
+    if rng.gen_bool(0.5) {
+        names.shuffle(rng);
+    }
+    let mut ops: Vec<Op> = names.iter().map(|n| Op::AddNode((*n, 0))).collect();
+    let hub = names[rng.gen_range(0..names.len())];
+    let mut others: Vec<i32> = names.iter().copied().filter(|x| *x != hub).collect();
+    others.shuffle(rng);
+    let out = rng.gen_bool(0.5);
+    for &o in &others {
+        ops.push(Op::AddEdge(if out { (hub, o, 10, 0) } else { (o, hub, 10, 0) }));
+    }
+    for i in 0..rng.gen_range(2..=4) {
+        let o = *others.choose(rng).unwrap();
+        let w = *[1i64, 2, 3, 20].choose(rng).unwrap();
+        ops.push(Op::AddEdge(if out { (hub, o, w, i + 1) } else { (o, hub, w, i + 1) }));
+    }
+    for _ in 0..rng.gen_range(0..=3) {
+        ops.push(Op::AddEdge(crate::mutgen::random_edge(rng, k, &[1, 2, 5], 0)));
+    }
+    ops
+}
+
 /// Structured graphs on which Louvain goes through several aggregation levels:
 /// paths, cycles, rings of cliques, barbells, grids; undirected and directed; 8-40 nodes.
 pub fn structured_cases(rng: &mut ChaCha8Rng, count: usize) -> Vec<Value> {
